@@ -9,6 +9,12 @@ are executed with a sys.settrace scheduler that runs Y's body inside X's trace c
 fully deterministic); the very same schedules are replayed with REAL threads under a semaphore baton for
 a spread of k (cross-validation: identical results required), and bound-0 (both serial orders) and - in
 the thorough tier - bound-2 schedules at call depth <= 2 run on real threads.
+(c) CONFLICT-DIRECTED level - each chunk is first traced alone at source-line granularity with a digest of the process-global mutable
+state taken at every point (NumPy's and Python's global random generators, every mutable container bound at module level or as a class
+attribute inside the ampycloud package, cache sizes of memoised functions). The points at which that digest has just changed (W) are the only
+places where a switch can let the other thread see, or overwrite, a half-done update. ALL bound-1 schedules (X stopped at w in W_X, Y runs
+to completion) and ALL bound-2 schedules (X stopped at w1 in W_X, Y runs up to w2 in W_Y, X finishes, Y finishes) over these points are
+executed for every pair and both orders - a partial-order reduction: with no write to shared state there is nothing to order.
 Oracle: every chunk's result digest equals the digest obtained by processing it alone.
 """
 import copy
@@ -24,13 +30,17 @@ from ..digest import result_digest, chunk_state_digest, obj_digest
 TITLE = 'concurrent / interleaved chunks do not interfere'
 EXPLORER = 'E4'
 CLAUSES = ['C13.stage_interleaving', 'C13.stage3_graph', 'C13.thread_b0', 'C13.thread_b1', 'C13.real_threads_agree',
-           'C13.preempt_inside_metarize', 'C13.preempt_inside_layering']
+           'C13.preempt_inside_metarize', 'C13.preempt_inside_layering', 'C13.conflict_scan']
 RULE = ('chunk pairs with different data AND different per-call parameters; STAGE2: all C(10,5)=252 interleavings per pair; STAGE3: BFS over '
         'the 6^3 program-counter vectors of three chunks, states merged only if every chunk equals its isolated reference at that pc; PREEMPT: for '
         'each pair and each order, one execution per scheduling point k (call/return events in ampycloud frames; thorough: + line events); THREADS: '
-        'bound-0 and a spread of bound-1 schedules on real threads under a baton scheduler (thorough: bound-2 at call depth <= 2). '
+        'bound-0 and a spread of bound-1 schedules on real threads under a baton scheduler (thorough: bound-2 at call depth <= 2); CONFLICT: every '
+        'pair x both orders, all bound-1 and bound-2 schedules over the points where the process-global state digest changes (line granularity). '
         'states = distinct (pc vector | schedule) explored, transitions = stage calls / pre-empted executions, traces_validated = schedules replayed on real threads')
-ASSUMPTIONS = ['pre-emption is modelled at Python source-line / call / return granularity inside ampycloud frames; switches inside numpy / pandas / '
+ASSUMPTIONS = ['the conflict-directed reduction sees shared state held in NumPy\'s / Python\'s global random generators, in mutable containers bound at '
+               'module level or as class attributes inside the ampycloud package, and in memoised functions there; state parked elsewhere (closures, '
+               'third-party module globals) is only reached by the unreduced bound-1 line-level sweep',
+               'pre-emption is modelled at Python source-line / call / return granularity inside ampycloud frames; switches inside numpy / pandas / '
                'scikit-learn C code and C-level parallelism are not modelled', 'the emulated pre-emption (Y runs inside X\'s trace callback) equals a real '
                'thread switch as long as ampycloud holds no thread-local state; cross-validated on real threads']
 
@@ -99,11 +109,14 @@ def cases(tier):
     if tier == 'quick':
         for part in range(6):
             out.append({'kind': 'threads', 'pair': list(PAIRS[1]), 'gran': 'call', 'bound2': False, 'part': part, 'nparts': 6})
+    for p in PAIRS:
+        for order in (0, 1):
+            out.append({'kind': 'conflict', 'pair': list(p), 'order': order})
     return out
 
 
 def weight(case):
-    return {'stage2': 10, 'stage3': 40, 'preempt': 30, 'threads': 35}[case['kind']]
+    return {'stage2': 10, 'stage3': 40, 'preempt': 30, 'threads': 35, 'conflict': 20}[case['kind']]
 
 
 # ---------------------------------------------------------------------------------------------------
@@ -210,6 +223,71 @@ def count_points(run, events, maxdepth=None):
     finally:
         sys.settrace(None)
     return pts, r
+
+
+def global_state_items():
+    """{name: digest} of the process-global mutable state two chunks could share (see ASSUMPTIONS)."""
+    import collections
+    import hashlib
+    import pickle
+    import random
+    import numpy as np
+    out = {}
+
+    def dg(v):
+        try:
+            b = pickle.dumps(v, protocol=4)
+        except Exception:       # noqa
+            b = repr(v).encode()
+        return hashlib.sha1(b).hexdigest()[:12]
+
+    st = np.random.get_state()
+    out['numpy.random global state'] = hashlib.sha1(st[1].tobytes() + repr(st[2:]).encode()).hexdigest()[:12]
+    out['random global state'] = dg(random.getstate())
+
+    def feed(prefix, k, v):
+        if isinstance(v, (dict, list, set, bytearray, collections.deque)):
+            out[f'{prefix}.{k}'] = dg(v)
+        elif isinstance(v, np.ndarray):
+            out[f'{prefix}.{k}'] = hashlib.sha1(v.tobytes()).hexdigest()[:12]
+        elif callable(v) and hasattr(v, 'cache_info'):
+            out[f'{prefix}.{k} (memo size)'] = str(v.cache_info().currsize)
+    for name, m in list(sys.modules.items()):
+        if m is None or not (name == 'ampycloud' or name.startswith('ampycloud.')):
+            continue
+        for k, v in list(vars(m).items()):
+            if k.startswith('__'):
+                continue
+            feed(name, k, v)
+            if isinstance(v, type) and str(getattr(v, '__module__', '')).startswith('ampycloud') and v.__module__ == name:
+                for ak, av in list(vars(v).items()):
+                    if not ak.startswith('__'):
+                        feed(f'{name}.{k}', ak, av)
+    return out
+
+
+def conflict_scan(run, events=('call', 'return', 'line')):
+    """Runs `run` alone under tracing; returns (number of points, [(k, where, [names that changed])] for every point k at which the
+    global-state digest differs from the one at point k-1, result)."""
+    st = {'n': 0, 'prev': None, 'w': []}
+
+    def tr(frame, event, arg):
+        if not is_ampy(frame.f_code):
+            return None
+        if event in events:
+            cur = global_state_items()
+            if st['prev'] is not None and cur != st['prev']:
+                changed = sorted(k for k in set(cur) | set(st['prev']) if cur.get(k) != st['prev'].get(k))
+                st['w'].append((st['n'], '%s:%s:%s' % (frame.f_code.co_name, frame.f_lineno, event), changed))
+            st['prev'] = cur
+            st['n'] += 1
+        return tr
+    sys.settrace(tr)
+    try:
+        r = run()
+    finally:
+        sys.settrace(None)
+    return st['n'], st['w'], r
 
 
 def preempt_emulated(runX, runY, k, events):
@@ -392,6 +470,42 @@ def run_case(case):
         res['digests'] = {f'{x}{y}{k}' for k in ks[:50]}
         res['sample'] = {'kind': kind, 'first': x, 'second': y, 'points_total': len(pts), 'executed_k': len(ks), 'granularity': case['gran'],
                          'example_points': ['%s:%s:%s' % p for p in pts[:3]]}
+    elif kind == 'conflict':
+        x, y = case['pair'] if case['order'] == 0 else case['pair'][::-1]
+        events = ('call', 'return', 'line')
+        runs = {x: body(x), y: body(y)}
+        nX, wX, refX = isolated(lambda: conflict_scan(runs[x]))
+        nY, wY, refY = isolated(lambda: conflict_scan(runs[y]))
+        ref = {x: refX, y: refY}
+        hit('C13.conflict_scan', nX + nY)
+        CAP = 60
+        res['notes'] = [f'{x}: {nX} points, {len(wX)} follow a change of the process-global state; {y}: {nY} points, {len(wY)}']
+        if len(wX) > CAP or len(wY) > CAP:
+            res['notes'].append(f'CAP: only the first {CAP} write points of each chunk were scheduled')
+        wX, wY = wX[:CAP], wY[:CAP]
+        scheds = [(k1, None) for k1, _, _ in wX] + [(k1, k2) for k1, _, _ in wX for k2, _, _ in wY]
+        if 'stop_at' in case:
+            scheds = scheds[:scheds.index(tuple(case['stop_at'])) + 1]
+        names = {k: (w, ch) for k, w, ch in wX}
+        namesY = {k: (w, ch) for k, w, ch in wY}
+        for (k1, k2) in scheds:
+            out, err = isolated(lambda: Baton(runs, {x: [k1], y: ([] if k2 is None else [k2])}, events).go(x))
+            res['n'] += 1
+            res['extra']['traces'] += 1
+            res['extra']['transitions'] += 1
+            hit('C13.thread_b1' if k2 is None else 'C13.thread_b2_conflict')
+            if err or out != ref:
+                viol('C13.thread_b1', {'real_threads': True, 'bound': 1 if k2 is None else 2, 'first_thread': x, 'stopped_at': names[k1][0],
+                                       'shared_state_just_written': names[k1][1], 'second_thread': y,
+                                       'second_stopped_at': None if k2 is None else namesY[k2][0],
+                                       'second_just_wrote': None if k2 is None else namesY[k2][1], 'errors': err,
+                                       'differs': [n for n in ref if out.get(n) != ref[n]], 'where': names[k1][0]},
+                     {**{kk: v for kk, v in case.items() if kk != 'stop_at'}, 'stop_at': [k1, k2]})
+                break
+        res['extra']['states'] = res['extra']['traces']
+        res['digests'] = {f'conflict{x}{y}{len(wX)}x{len(wY)}'}
+        res['sample'] = {'kind': kind, 'first': x, 'second': y, 'points': [nX, nY],
+                         'write_points': [[k, w, ch] for k, w, ch in wX[:6]], 'schedules': len(scheds)}
     else:   # real threads
         x, y = case['pair']
         events = ('call', 'return')
